@@ -191,6 +191,9 @@ func (vm *VM) run() (Addr, bool) {
 							method = missingMethod(concrete, t)
 						}
 					}
+					// The panic is that of the Panic instruction that
+					// follows, which carries the position.
+					vm.pc++
 					panic(errTypeAssertion(vm.fn.Types[uint8(in.C)], concrete, t, method))
 				}
 			}
